@@ -518,7 +518,9 @@ impl<V: Val> Pma<V> {
                             continue; // a code the mapper never produces
                         }
                         if t <= 1 || idx_of.contains_key(&t) {
-                            extra.push(json!({"from": qi, "lab": label_of[code as usize], "to": t}));
+                            // toidx: position of the target in the dump (-1: the reserved dead slot)
+                            let toidx: i64 = if t == 1 { -1 } else { idx_of.get(&t).map_or(0, |&x| x as i64) };
+                            extra.push(json!({"from": qi, "lab": label_of[code as usize], "to": t, "toidx": toidx}));
                         } else {
                             idx_of.insert(t, order.len() + 1);
                             order.push(t);
@@ -587,6 +589,8 @@ impl<V: Val> Pma<V> {
             "oob": oob, "outs": outs, "mapper": mapper, "mapper_ok": mapper_ok,
             "alphabet": raw.alphabet_size, "mapper_len": raw.mapper_len,
             "kindbyte": raw.match_kind, "num_states": raw.num_states, "nexts": nexts,
+            "dead": {"base": raw.base.get(1).copied().unwrap_or(0), "fail": raw.fail.get(1).copied().unwrap_or(0),
+                     "opos": raw.output_pos.get(1).copied().unwrap_or(0)},
         })
     }
 }
